@@ -139,7 +139,23 @@ MC = {
     'wanyt': 'main:mk.h1.f1.s1.a0.d1.v7,mk.h2.f2.s1.a0.d1.v8,go,wany.h3.f3.I1_2.i1_2.y4_5.r1,get.h3.f3,del.h3.f3,del.h1.f1,del.h2.f2;r:up,runq,runq',
     'wallt': 'main:mk.h1.f1.s1.a0.d1.v7,mk.h2.f2.s1.a0.d1.v8,go,wall.h3.f3.I1_2.i1_2.y4_5.r1,get.h3.f3,del.h3.f3,del.h1.f1,del.h2.f2;r:up,runq,runq',
     'wallts': 'main:new.w0,tsnew.t1.k5,mk.h1.f1.s1.a0.d1.v7,go,wall.h3.f2.I1.i1.y3.t1,tswait.t1,rdy.h3.f2,del.h3.f2,del.h1.f1,sync,tsdel.t1,delp;r:up,runq',
+    # C19, task-set overloads of when_all / when_any: "taskSet.wait() returned => the result is ready" must hold for each of
+    # the overloads (TaskSet / ConcurrentTaskSet x iterator / variadic) and must not depend on WHERE the inputs run: the
+    # result future itself holds a slot of the set's outstanding-task counter.  `rdy` right after `tswait` observes it.
+    #   inputs OUTSIDE the set (manual queue, run by thread r): only the result's own slot keeps wait() from returning
+    'wallts6': 'main:new.w0,tsnew.t2.k6,mk.h1.f1.s1.a0.d1.v7,go,wall.h3.f2.I1.i1.y3.t2,tswait.t2,rdy.h3.f2,del.h3.f2,del.h1.f1,sync,tsdel.t2,delp;r:up,runq',
+    'walltst': 'main:new.w0,tsnew.t1.k5,mk.h1.f1.s1.a0.d1.v7,go,wall.h3.f2.I1.i1.y3.t1.r1,tswait.t1,rdy.h3.f2,del.h3.f2,del.h1.f1,sync,tsdel.t1,delp;r:up,runq',
+    'walltst6': 'main:new.w0,tsnew.t2.k6,mk.h1.f1.s1.a0.d1.v7,mk.h2.f2.s1.a0.d0.v8,go,wall.h3.f3.I1_2.i1_2.y4_5.t2.r1,tswait.t2,rdy.h3.f3,get.h3.f3,del.h3.f3,del.h1.f1,del.h2.f2,sync,tsdel.t2,delp;r:up,runq,runq',
+    'wanyts': 'main:new.w0,tsnew.t1.k5,mk.h1.f1.s1.a0.d1.v7,go,wany.h3.f2.I1.i1.y3.t1,tswait.t1,rdy.h3.f2,del.h3.f2,del.h1.f1,sync,tsdel.t1,delp;r:up,runq',
+    #   inputs INSIDE the set (real pool, one worker): the input's own slot is released BEFORE its then-chain (where the
+    #   when_all callback and the result run) is dispatched; a continuation registered on the input after when_all sits in
+    #   front of that callback (the chain is LIFO) and widens the window in which only the result's slot is outstanding
+    'walltsin': 'main:new.w1,tsnew.t1.k5,mk.h1.f1.s5.a1.d0.v7.t1,wall.h3.f2.I1.i1.y3.t1,then.h1.f1.H2.g4.s2.a0.d1,tswait.t1,rdy.h3.f2,del.h3.f2,del.h2.f4,del.h1.f1,tsdel.t1,delp',
+    'walltsin6': 'main:new.w1,tsnew.t2.k6,mk.h1.f1.s6.a1.d0.v7.t2,mk.h2.f2.s6.a1.d1.v8.t2,wall.h3.f3.I1_2.i1_2.y4_5.t2.r1,tswait.t2,rdy.h3.f3,del.h3.f3,del.h1.f1,del.h2.f2,tsdel.t2,delp',
 }
+
+# the task-set programs above: run in the real code by C19's E4 (every tier)
+TS_PROGS = ('wallts', 'wallts6', 'walltst', 'walltst6', 'wanyts', 'walltsin', 'walltsin6')
 
 
 INVARIANTS = ('TypeOK NoBad FuncOnce ReadyImpliesRan GetsAgree DeallocOnce RefsSane ThenAfterReady TsWaitImpliesReady '
@@ -165,18 +181,25 @@ GROUPS = {
     'g18': ['exc', 'pool', 'newthread'],
     'g19': ['wall0', 'wany1', 'wall1', 'wallts', 'tset'],
     'g20': ['timed', 'timed_d'],
+    # every task-set overload of when_all (+ when_any), inputs outside / inside the set (see MC above)
+    'g19ts': ['wallts6', 'walltst', 'walltst6', 'walltsin'],      # (quick: ~4 700 states; `wallts` itself is in g19)
+    'g19ts2': ['wanyts', 'walltsin6'],                            # (thorough)
 }
 
 
-def write_mc(d):
+def write_mc(d, only=None):
     """One small module per model (TLC pre-evaluates every constant definition of a module: one module with all the
-    programs costs ~1 s per program at every start-up): MCFuture_<name>.tla + MC_<name>.cfg (+ MC_<name>_fixed.cfg)."""
-    for f in os.listdir(d):
-        if f.startswith('MCFuture') or (f.startswith('MC_') and f.endswith('.cfg')):
-            os.remove(os.path.join(d, f))
+    programs costs ~1 s per program at every start-up): MCFuture_<name>.tla + MC_<name>.cfg (+ MC_<name>_fixed.cfg).
+    `only`: (re)write just these models and leave every other file alone (python3 gen.py mc name ...)."""
+    if not only:
+        for f in os.listdir(d):
+            if f.startswith('MCFuture') or (f.startswith('MC_') and f.endswith('.cfg')):
+                os.remove(os.path.join(d, f))
     models = {k: [k] for k in MC}
     models.update(GROUPS)
     for name, members in models.items():
+        if only and name not in only:
+            continue
         ws, nts, names = set(), [], []
         body = ''
         for k in members:
@@ -348,7 +371,7 @@ def well_formed(text):
 
 if __name__ == '__main__':
     if len(sys.argv) > 1 and sys.argv[1] == 'mc':
-        write_mc(os.path.dirname(os.path.abspath(__file__)))
+        write_mc(os.path.dirname(os.path.abspath(__file__)), only=sys.argv[2:])
     elif len(sys.argv) > 2 and sys.argv[1] == 'rand':
         rng = random.Random(int(sys.argv[2]))
         for _ in range(int(sys.argv[3]) if len(sys.argv) > 3 else 5):
